@@ -21,6 +21,9 @@ pub struct StreamPlan {
     pub spec: USpec,
     pub items: Vec<u64>,
     pub events: Vec<SEv>,
+    /// the sketcher is built in this thread and fed in another one
+    #[serde(default)]
+    pub other_thread: bool,
 }
 
 pub struct Stream;
@@ -337,7 +340,7 @@ impl Scenario for Stream {
         } else {
             events = gen_delivery(rng, &items, true);
         }
-        StreamPlan { spec, items, events }
+        StreamPlan { spec, items, events, other_thread: rng.chance(0.05) }
     }
 
     fn execute(&self, plan: &StreamPlan, ctx: &mut Ctx) -> Result<(), Violation> {
@@ -347,6 +350,62 @@ impl Scenario for Stream {
             ctx.count("fault:node-built-with-default-constructor");
         }
         let mut node = make_unode(spec);
+        if plan.other_thread {
+            // built here, fed in a fresh thread, read back here: per-thread state of the library must not matter
+            ctx.count("fault:built-here-used-in-another-thread");
+            let _ = crate::alloc_track::disarm();
+            let evs = &plan.events;
+            let is_dens = spec.kind.is_dens();
+            let r = std::thread::scope(|sc| {
+                sc.spawn(move || {
+                    caught(|| {
+                        let mut fin = false;
+                        for e in evs {
+                            match e {
+                                SEv::Item(i) => node.deliver(*i),
+                                SEv::Chunk(c) => {
+                                    node.chunk(c);
+                                    if is_dens {
+                                        fin = true;
+                                    }
+                                }
+                                SEv::Finish => {
+                                    node.finish();
+                                    fin = true;
+                                }
+                            }
+                        }
+                        if is_dens && !fin {
+                            node.finish();
+                        }
+                        node
+                    })
+                })
+                .join()
+            });
+            let node = match r {
+                Ok(Ok(n)) => n,
+                Ok(Err(msg)) => return Err(Violation { property: ctx.target.clone(), oracle: "unexpected-panic".into(), key: String::new(), detail: msg }),
+                Err(_) => return Err(Violation { property: ctx.target.clone(), oracle: "unexpected-panic".into(), key: String::new(), detail: "feeding thread died".into() }),
+            };
+            for e in &plan.events {
+                ctx.ev("deliver-in-other-thread", match e { SEv::Item(i) => *i, SEv::Chunk(c) => c.len() as u64, SEv::Finish => 0 });
+            }
+            let items: BTreeSet<u64> = plan.items.iter().copied().collect();
+            ctx.nontrivial = items.len() >= 2;
+            let mut cspec = spec.clone();
+            cspec.use_default = false;
+            let mut canon = make_unode(&cspec);
+            let sorted: Vec<u64> = items.iter().copied().collect();
+            canon.chunk(&sorted);
+            let (got, want) = (node.views(), canon.views());
+            digest_views(ctx, &got);
+            let mut model_hash = BTreeMap::new();
+            for i in &items {
+                model_hash.insert(node.hash_of(*i), *i);
+            }
+            return compare_views(ctx, "C04", "replica-equals-canonical", spec, &got, &want, &model_hash, "fed in another thread vs canonical delivery");
+        }
         let mut delivered: BTreeSet<u64> = BTreeSet::new();
         let mut total = 0usize;
         let mut finished = false;
@@ -512,6 +571,11 @@ impl Scenario for Stream {
                     }
                 }
             }
+        }
+        if plan.other_thread {
+            let mut p = plan.clone();
+            p.other_thread = false;
+            out.push(p);
         }
         // simpler hasher / element type
         if plan.spec.hash != HashT::Fnv && plan.spec.kind != UKind::Smh2U32 {
